@@ -4,8 +4,15 @@ design:  TLC checks the clauses on spec/exchange/CertExchange.tla (every store x
          Poller.tla (every responder script) exhaustively; named-deviation cfgs must produce counterexamples.
 binding: the same enumerated requests / scripts are executed on the REAL certexchange.Server, Client and
          polling.Poller over mocknet (harness/drivers/certexchange); TLC validates the recorded calls against
-         CertExchangeTrace.tla / PollerTrace.tla (clauses C16_* -> VIOLATION, Conf_* -> drift)."""
-import os, json, collections
+         CertExchangeTrace.tla / PollerTrace.tla (clauses C16_* -> VIOLATION, Conf_* -> drift).
+stores that advance during a call:
+         MCCertExchangeConc.tla checks the request as a sequence of reads with certstore.Put interleaved between any
+         two of them; MCPollerLA.tla checks the node (poller + own store) under every interleaving of local store
+         advances, CatchUp and Poll.  The driver serves requests while a Put lands inside the k-th datastore read
+         (every k) and from a free-running writer (TestServeConc), and advances the poller's own store by 0..3
+         certificates with every pattern of power-table change before / during polls of honest and malicious peers,
+         including one that signs with the retired committee's keys (TestPollerLA).  Same trace specs judge."""
+import os, json, collections, itertools, random
 from concurrent.futures import ThreadPoolExecutor
 import vlib
 from vlib import Inconclusive
@@ -20,6 +27,45 @@ def emitted(res):
         if line.startswith('"{'):
             rows.append(json.loads(json.loads(line)))
     return rows
+
+
+def pats(lo, hi):
+    return [list(p) for n in range(lo, hi + 1) for p in itertools.product([False, True], repeat=n)]
+
+
+def la_histories(seed, thorough):
+    """Histories for TestPollerLA (inputs only, TLC judges): the node starts with len(pre) certificates, its own
+    store advances by adv1, optionally Poller.CatchUp is called and the store advances again by adv2, then it polls
+    a peer (scripted, or a real honest Server `ahead` of it) while `la` more certificates are finalized locally
+    during the first request; optionally a second local advance + honest poll follows on the same poller."""
+    rng = random.Random(seed)
+    ok = lambda po, kinds: [dict(mode="ok", po=po, kinds=list(kinds))]
+    peers = [("honest", [], 2), ("honest", [], 0), ("honest", [], -1),
+             ("evil", ok(3, "V"), 0), ("evil", ok(3, "R"), 0), ("evil", ok(3, "VR"), 0), ("evil", ok(3, "RV"), 0),
+             ("evil", ok(3, "F"), 0), ("evil", ok(2, "VV"), 0), ("evil", ok(0, ""), 0)]
+    pres = [[True, False], [False, True]]
+    adv2s = pats(1, 1)
+    if thorough:
+        peers += [("honest", [], 1), ("evil", ok(1, "VF"), 0), ("evil", ok(3, "G"), 0), ("evil", ok(3, "D"), 0), ("evil", ok(3, "S"), 0),
+                  ("evil", ok(3, "T"), 0), ("evil", ok(3, "RR"), 0), ("evil", [dict(mode="reset", po=0, kinds=[])], 0),
+                  ("evil", ok(3, "V") + ok(3, "R"), 0), ("evil", ok(3, "V") + ok(0, "V"), 0)]
+        pres = pats(2, 2) + [[True], [False, True, False]]
+        adv2s = pats(1, 2)
+    shapes = [(a1, False, []) for a1 in pats(0, 3)] + [(a1, True, a2) for a1 in pats(1, 3) for a2 in adv2s]
+    out = []
+    for pre in pres:
+        for a1, cu, a2 in shapes:
+            for peer, script, ahead in peers:
+                out.append(dict(pre=pre, adv1=a1, cu=cu, adv2=a2, peer=peer, script=script, ahead=ahead, la=[],
+                                follow=rng.choice(pats(1, 3)) if rng.random() < 0.3 else []))
+        # the node's own consensus finalizes while the request is in flight
+        for a1 in pats(0, 2 if not thorough else 3):
+            for la in pats(1, 2):
+                for peer, script, ahead in (peers[0], peers[1], peers[3], peers[4], peers[8]):
+                    out.append(dict(pre=pre, adv1=a1, cu=False, adv2=[], peer=peer, script=script, ahead=ahead, la=la,
+                                    follow=rng.choice(pats(1, 2)) if rng.random() < 0.3 else []))
+    rng.shuffle(out)
+    return out
 
 
 def run(ck):
